@@ -22,7 +22,7 @@ LEVEL_TEXT = ("All sequences up to length 4 (quick) / 6 (thorough) over a 12-ope
 LEVEL_NOTE = "Trusts numpy and icontract; the record-level clause (pid strictly increasing, pid[k] >= k in every output record) is asserted by the shared output checker in the end-to-end checks (C06, C09, C14 ...)."
 RULE = ("case = all operation sequences of the given length with a fixed two-operation prefix (exhaustive family) or a batch of random sequences; "
         "non-trivial sequence: contains an append, a kill and a compactify followed by another append (the pid-reuse / misalignment pattern); distinct by sequence.")
-MANDATORY = ["in_place_update_after_assignment_from_another_variable", "append_after_compactify", "kill_then_compactify", "invariant_evaluations", "shadow_comparisons", "particle_variable_follow_pid", "e2e_split_files_checked", "e2e_particle_values_compared"]
+MANDATORY = ["e2e_warm_start_without_particle_variables", "in_place_update_after_assignment_from_another_variable", "append_after_compactify", "kill_then_compactify", "invariant_evaluations", "shadow_comparisons", "particle_variable_follow_pid", "e2e_split_files_checked", "e2e_particle_values_compared"]
 ASSUMPTIONS = ["single-threaded use of State (ladim has no threads)"]
 EXHAUSTIVE = {"quick": True, "thorough": True}
 TIMEOUT = {"quick": 600, "thorough": 3000}
@@ -39,6 +39,8 @@ _st: dict[str, Any] = dict(n=0, installed=False)
 
 def state_consistent(self) -> bool:
     _st["n"] += 1
+    if _st.get("suspended"):
+        return True  # inside warm_start(), which fills the state one variable at a time; judged again when it returns
     v = self.variables
     n = len(v["pid"])
     for name in self.instance_variables:
@@ -64,6 +66,21 @@ def _install():
 
     if not _st["installed"]:
         icontract.invariant(state_consistent, error=InvariantBroken)(st.State)
+        # warm_start() assigns the variables of the state one by one: the invariant holds before and after it, not in between
+        import ladim.model as lm  # noqa: PLC0415
+
+        orig_ws = lm.warm_start
+
+        def warm_start_observed(filename, variables, state):
+            _st["suspended"] = _st.get("suspended", 0) + 1
+            try:
+                return orig_ws(filename, variables, state)
+            finally:
+                _st["suspended"] -= 1
+                if not _st["suspended"] and not state_consistent(state):
+                    raise InvariantBroken("State inconsistent after warm_start()")
+
+        lm.warm_start = warm_start_observed
         _st["installed"] = True
     return st
 
@@ -238,11 +255,27 @@ def run_e2e(case: dict[str, Any], wd: Path) -> dict[str, Any]:
     p = dict(idx=case["idx"], salt=case["idx"] + 500, dt=600, nsteps=ns, period=1, numrec=int(rng.choice([2, 3])), layout="sparse" if case["idx"] % 3 else "dense",
              reversed=False, reference=None, releases=[[s, int(rng.integers(1, 4))] for s in rel_steps],
              kills={int(rng.integers(1, ns - 1)): [0, 1], int(rng.integers(2, ns)): [2]}, pvars=True, lonlat=False, enc="f8", speed=0.08, continuous=0)
+    if case["idx"] % 3 == 1:
+        # output without particle variables, and a continuation warm-started from its first file: identifiers go on where they stopped
+        p.update(pvars=False, warm=True, layout="sparse")
     out = outscn.run_and_check(p, wd)
     V = list(out["V"])
+    if p.get("warm") and out["cnt"].get("warm_runs"):
+        # the continuation's records against the uninterrupted run's records of the same times
+        from vmon.scenario import read_outputs  # noqa: PLC0415
+
+        cold = {str(r.time): [int(q) for q in r.pid] for f in out["files"] for r in f.records}
+        try:
+            for f2 in read_outputs([wd / "warm.nc"]):
+                for r in f2.records:
+                    if str(r.time) in cold and [int(q) for q in r.pid] != cold[str(r.time)] and len(V) < 3:
+                        V.append(C.viol(f"warm-started continuation: record at {r.time} holds pids {[int(q) for q in r.pid]}, the uninterrupted run {cold[str(r.time)]}: identifiers were not continued", params=p))
+        except Exception as e:  # noqa: BLE001
+            V.append(C.viol(f"output of the warm-started continuation not readable: {type(e).__name__}: {e}", params=p))
     if not out["res"].ok:
         V.append(C.viol(f"end-to-end run did not complete: {out['res'].exc}", params=p))
-    sit = dict(e2e_split_files_checked=len(out["files"]), e2e_particle_values_compared=out["cnt"].get("particle_values_compared", 0))
+    sit = dict(e2e_split_files_checked=len(out["files"]), e2e_particle_values_compared=out["cnt"].get("particle_values_compared", 0),
+               e2e_warm_start_without_particle_variables=int(bool(p.get("warm") and out["cnt"].get("warm_runs"))))
     return C.result(V[:3], sit, out["cnt"], nontrivial=len(out["files"]) > 1, key=f"e2e|{case['idx']}", sample=dict(params=p, files=[f.path.name for f in out["files"]]))
 
 
